@@ -218,7 +218,9 @@ func (c *Ctx) GuardedBy(g GuardSpec) {
 					}
 					refs := *mc.Referrers()
 					if len(refs) == 1 {
-						if call, ok := refs[0].(*ssa.Call); ok && call.Call.Value == mc {
+						if call, ok := refs[0].(*ssa.Call); ok && (call.Call.Value == mc || isRangeFuncBody(fn)) {
+							// immediately invoked, or the body of a range-over-func loop
+							// (run synchronously by the iterator it is passed to)
 							pls := getLS(fn.Parent())
 							if pls[call][g.Mu] {
 								e[g.Mu] = true
@@ -388,4 +390,8 @@ func isWriteUse(in ssa.Instruction) bool {
 		}
 	}
 	return false
+}
+
+func isRangeFuncBody(fn *ssa.Function) bool {
+	return strings.Contains(fn.Synthetic, "range-over-func")
 }
